@@ -454,7 +454,12 @@ def mon_c05(tr: Trace) -> list[Violation]:
             continue
         ops = [a[0] for a in sd["script"]]
         if any(o in ops for o in ("collect", "wait")):
-            continue  # re-runs of collect/wait replays are not retries
+            # re-runs of collect (stale snapshot) and wait replays are not retries: they keep the retry number.
+            # The number may therefore repeat, but along one input event it never goes back.
+            rns0 = [e[0] for e in execs]
+            if any(b < a for a, b in zip(rns0, rns0[1:])):
+                out.append(Violation("C05/retry_number_went_back", f"{step} uid={uid}: retry_info().retry_number sequence {rns0} (a re-run lost the invocation's retry count)", _replay(tr)))
+            continue
         # retry numbers are 0,1,2,... and each retry sees the previous attempt's exception
         rns = [e[0] for e in execs]
         if rns != list(range(len(rns))):
@@ -672,16 +677,22 @@ def mon_c09(tr: Trace) -> list[Violation]:
     for c in _runner_calls(tr):
         if c.kind == "reduce" and isinstance(c.tick, T.TickStepResult) and c.after is not None:
             ticks.setdefault((c.tick.step_name, getattr(c.tick.event, "uid", None)), []).append(c)
-    seen_idx: dict[tuple, int] = {}
+    # every execution of (step, uid) ends in one result tick; an attempt that failed before it called
+    # collect_events has a tick but no call, so calls are paired with ticks through the execution index
+    enters: dict[tuple, int] = {}
     any_stale: set = set()
     returned: dict[tuple, list] = {}  # (step, buf) -> [(uid list, stale?)]
-    for rec in calls:
+    for rec in tr.steps:
+        if rec[0] == "enter":
+            enters[(rec[1], rec[2])] = enters.get((rec[1], rec[2]), 0) + 1
+            continue
+        if rec[0] != "collect_call":
+            continue
         _k, step, uid, rn, _vt, info = rec
         if info["snapshot"] is None:
             continue
         key = (step, uid)
-        i = seen_idx.get(key, 0)
-        seen_idx[key] = i + 1
+        i = max(enters.get(key, 1) - 1, 0)
         exp, buf, snap, snap_tys, ty, got = info["expected"], info["buf"], info["snapshot"], info["snapshot_tys"], info["ty"], info["got"]
         expc = _cnt(exp)
         snapc = _cnt(snap_tys)
@@ -717,6 +728,10 @@ def mon_c09(tr: Trace) -> list[Violation]:
         adds = [r for r in c.tick.result if isinstance(r, R.AddCollectedEvent) and r.event_id == buf]
         rerun = any(isinstance(k, C.CommandRunWorker) and k.step_name == step and k.id == c.tick.worker_id for k in c.cmds)
         stopped = any(isinstance(k, C.CommandCompleteRun) for k in c.cmds)
+        if not stale and completed and not stopped:
+            exp_c, after_c = _cnt(exp), _cnt([ET.TY_ID.get(type(e), -1) for e in c.after.workers[step].collected_events.get(buf, [])])
+            if exp and all(after_c.get(t, 0) >= n for t, n in exp_c.items()):
+                out.append(Violation("C09/full_set_stuck_in_buffer", f"step {step}: after event {uid} the live buffer {live_after} holds a full expected set {exp} that was not returned", case))
         if got is not None:
             if completed:
                 # an attempt that then failed or suspended in wait_for_event is re-executed with the same
